@@ -452,6 +452,18 @@ func (ex *Exec) fieldAddr(st *State, x Value, styp types.Type, field int) Value 
 	case Loc:
 		// pointer into a Go-side compound value
 		if _, ok := ex.tm.isTargetStruct(styp); !ok {
+			// field of an external struct embedded by value in a heap object:
+			// an opaque cell at the derived address of the embedded struct
+			if base, ok := ex.reify(p); ok && p.Cell == nil {
+				k := typeKey(styp) + "." + su.Field(field).Name()
+				regMu.Lock()
+				fieldTypeRegistry["F:"+k] = ft
+				regMu.Unlock()
+				if _, isStruct := ft.Underlying().(*types.Struct); isStruct {
+					return Loc{Key: "F:" + k, Idx: base, Sort: SInt}
+				}
+				return Loc{Key: "F:" + k, Idx: base, Sort: ex.tm.SortOf(ft)}
+			}
 			return Unknown{"field of external struct value"}
 		}
 		dt := ex.tm.structDT(styp)
@@ -464,7 +476,7 @@ func (ex *Exec) fieldAddr(st *State, x Value, styp types.Type, field int) Value 
 			regMu.Lock()
 			fieldTypeRegistry["F:"+k] = ft
 			regMu.Unlock()
-			return Loc{Key: "X:" + k, Idx: p.T, Sort: ex.tm.SortOf(ft)}
+			return Loc{Key: "F:" + k, Idx: p.T, Sort: ex.tm.SortOf(ft)}
 		}
 		key := ex.tm.FieldKey(styp, field)
 		if _, isT := ex.tm.isTargetStruct(ft); isT {
